@@ -18,6 +18,7 @@ CHECKS = {
     "C09": ("c09", False),
     "C10": ("c10", False),
     "C17": ("c17", False),
+    "C06": ("c06", False),
 }
 
 
